@@ -130,7 +130,8 @@ def build(ctx, topo):
             nst = c.get("nsteps", 1)
             steps = [ctx.td(f"s_{n}{k}", lo_us=1) for k in range(nst)]
             comps[n] = HComp(n, ci, start, steps, inputs=ins[n], outputs=outs[n],
-                             initial_pull=c.get("init_pull", True), out_deps=c.get("out_deps"))
+                             initial_pull=c.get("init_pull", True), out_deps=c.get("out_deps"),
+                             finish_after=c.get("finish_after"))
         else:
             comps[n] = HPull(n, ins[n], outs[n])
     order = topo.get("order") or list(range(len(specs)))
@@ -472,7 +473,11 @@ def h_run(ctx):
     if "C03" in props:
         for c in comps.values():
             if isinstance(c, ITimeComponent):
-                ctx.check(c.time >= end, "C03:component-short-of-end-time", {"sig": c.name})
+                if getattr(c, "finish_after", None) is None or c.k < c.finish_after:
+                    ctx.check(c.time >= end, "C03:component-short-of-end-time", {"sig": c.name})
+                else:
+                    ctx.check(c.k == c.finish_after, "C03:finished-component-updated-again", {"sig": c.name})
+                    ctx.cover("finished-early")
                 ts = c.update_times
                 for a, b in zip(ts, ts[1:]):
                     ctx.check(a < b, "C03:time-not-increasing")
